@@ -101,7 +101,9 @@ RemoteSend(i, m) ==
 
 (* ---- contract-level message: route by the published lists, first match - *)
 FirstListing(p, k, key) ==
-    LET hits == {i \in 1..Len(p.parts) : EListed(p.parts[i], k, key)}
+    \* (a part is asked when the name is one its messages answer to: for handlers without forwarded serde names that is exactly
+    \*  the published list; an alias is answered to without being published, C03 demands that it is routed all the same)
+    LET hits == {i \in 1..Len(p.parts) : key \in EWireNames(p.parts[i], k)}
     IN IF hits = {} THEN 0 ELSE CHOOSE i \in hits : \A j \in hits : i <= j
 
 WrapperResult(q, k, d, o) ==     \* o: what each part's own decoder says about the document
@@ -202,7 +204,7 @@ C02_ExactlyOne ==
                                   /\ Len(ran) = 1
                                   /\ \E m \in Range(P.parts[dec.part].methods) :
                                         /\ m.kind = ep /\ m.name = ran[1].name
-                                        /\ ep \in EnumKinds => m.wire = doc.key
+                                        /\ ep \in EnumKinds => doc.key \in EAccept(m)
                                         /\ res = m.outcome
                                   /\ ran[1].part = P.parts[dec.part].id
         /\ dec.verdict = "err" => ran = <<>> /\ res = "err"
